@@ -190,7 +190,7 @@ def py_spec_dep(w, b, defs, vals):
             return True
         if x["prio"] < y["prio"]:
             return False
-        if x["pos"] == y["pos"] and x["npos_req"] == y["npos_req"]:
+        if [model.canon_ty(t) for t in x["pos"]] == [model.canon_ty(t) for t in y["pos"]] and x["npos_req"] == y["npos_req"]:
             return order[x["id"]] > order[y["id"]]          # identical signature: the later registration wins
         les = [doc_le(w, tx, ty) for tx, ty in zip(x["pos"], y["pos"])]
         if any(l is None for l in les):
